@@ -15,6 +15,8 @@ import (
 	"github.com/notaryproject/notation-go"
 	"github.com/notaryproject/notation-go/verifier"
 	pf "github.com/notaryproject/notation-plugin-framework-go/plugin"
+	"github.com/opencontainers/go-digest"
+	ocispec "github.com/opencontainers/image-spec/specs-go/v1"
 	"pgregory.net/rapid"
 
 	"verifharness/internal/envb"
@@ -41,7 +43,10 @@ type Case struct {
 	Idents []Ident    `json:"idents"`
 	Format string     `json:"format"`
 	Scheme string     `json:"scheme"`
-	Warm   string     `json:"warm,omitempty"` // earlier verification on the same verifier: "", matching-leaf, unrelated-leaf
+	Warm   string     `json:"warm,omitempty"` // earlier verification on the same verifier: "", matching-leaf, unrelated-leaf, blob-same-name
+	// (blob-same-name: the verifier also has a blob policy whose statement carries the SAME name
+	// as the OCI statement but lists the judged leaf's exact subject; the judged envelope is first
+	// verified as a blob under it)
 	// Plugin "rev-only": the signature names a verification plugin that owns only the revocation check
 	// (and answers success); the identity check stays notation's own and its verdict must not change
 	Plugin string `json:"plugin,omitempty"`
@@ -147,6 +152,11 @@ func drawRender(rt *rapid.T, n int, label string) renderOpts {
 		o.hexMask = append(o.hexMask, rp.Pick(rt, label+"hex", 0, 0, 0, 1, 2, 3))
 	}
 	return o
+}
+
+// plainRender renders the attributes in order without any variation.
+func plainRender(n int) renderOpts {
+	return renderOpts{perm: seq(n), spaceA: make([]int, n), spaceEq: make([]int, n), spaceEnd: make([]int, n), hexMask: make([]int, n)}
 }
 
 func seq(n int) []int {
@@ -261,11 +271,25 @@ func run(c Case) (authErr error, herr error) {
 		opts.PluginManager = &mocks.Manager{Plugins: map[string]pf.Plugin{"c04-plugin": &mocks.Plugin{Name: "c04-plugin", Version: "1.0.0",
 			Capabilities: []pf.Capability{pf.CapabilityRevocationCheckVerifier}}}}
 	}
+	if c.Warm == "blob-same-name" {
+		blobID := "x509.subject:C=ZZ,ST=warm,O=warm-up org"
+		if li := analyse(c.Leaf); li.interpretable && !li.either {
+			var flat []pki.AV
+			for _, rdn := range c.Leaf {
+				flat = append(flat, rdn...)
+			}
+			blobID = "x509.subject:" + render(flat, plainRender(len(flat)))
+		}
+		opts.BlobTrustPolicy = kit.BlobDoc("p", kit.Level{Base: "strict"}.SV(""), []string{storeType + ":x"}, []string{blobID})
+	}
 	v, err := verifier.NewVerifierWithOptions(ts, opts)
 	if err != nil {
 		return nil, fmt.Errorf("policy with identities %q rejected: %v", ids, err)
 	}
-	if c.Warm != "" {
+	if c.Warm == "blob-same-name" {
+		v.VerifyBlob(context.Background(), func(digest.Algorithm) (ocispec.Descriptor, error) { return desc, nil }, env,
+			notation.BlobVerifierVerifyOptions{SignatureMediaType: c.Format, TrustPolicyName: "p"})
+	} else if c.Warm != "" {
 		var wsub [][]pki.AV
 		switch c.Warm {
 		case "matching-leaf": // a leaf whose subject is exactly the first pinned identity
@@ -469,7 +493,7 @@ func identityProp(rec *stats.Recorder) func(rt *rapid.T) {
 			}
 			c.Idents = shuffled
 		}
-		c.Warm = rp.Pick(rt, "warm", "", "", "", "matching-leaf", "matching-leaf", "unrelated-leaf")
+		c.Warm = rp.Pick(rt, "warm", "", "", "", "matching-leaf", "matching-leaf", "unrelated-leaf", "blob-same-name", "blob-same-name")
 		c.Plugin = rp.Pick(rt, "plugin", "", "", "", "rev-only")
 		want, either := modelPass(c)
 		// classes
@@ -486,6 +510,9 @@ func identityProp(rec *stats.Recorder) func(rt *rapid.T) {
 		cl = append(cl, map[bool]string{true: "model=pass", false: "model=fail"}[want])
 		if c.Warm != "" {
 			cl = append(cl, "reused-verifier")
+		}
+		if c.Warm == "blob-same-name" {
+			cl = append(cl, "blob-statement-with-same-name")
 		}
 		if c.Plugin != "" {
 			cl = append(cl, "plugin="+c.Plugin)
@@ -536,38 +563,138 @@ func identityProp(rec *stats.Recorder) func(rt *rapid.T) {
 	}
 }
 
+// invalidIdentity draws an x509.subject identity that cannot be interpreted.
+func invalidIdentity(rt *rapid.T) (op, id string) {
+	avs := []pki.AV{{T: "C", V: drawValue(rt, "c", false)}, {T: "ST", V: drawValue(rt, "st", false)}, {T: "O", V: drawValue(rt, "o", false)}, {T: "CN", V: drawValue(rt, "cn", false)}}
+	op = rp.Pick(rt, "op", "missing-C", "missing-ST", "missing-O", "duplicate", "multivalued", "eqhash", "empty-value", "no-equals")
+	text := ""
+	switch op {
+	case "missing-C":
+		text = render(avs[1:], drawRender(rt, 3, "r"))
+	case "missing-ST":
+		text = render([]pki.AV{avs[0], avs[2], avs[3]}, drawRender(rt, 3, "r"))
+	case "missing-O":
+		text = render([]pki.AV{avs[0], avs[1], avs[3]}, drawRender(rt, 3, "r"))
+	case "duplicate":
+		text = render(append(avs, pki.AV{T: rp.Pick(rt, "dup", "C", "ST", "O", "CN"), V: "zz"}), drawRender(rt, 5, "r"))
+	case "multivalued":
+		text = render(avs[:3], drawRender(rt, 3, "r")) + "+CN=joined"
+	case "eqhash":
+		text = render(avs[:3], drawRender(rt, 3, "r")) + ",CN=#0c0161"
+	case "empty-value":
+		text = ""
+	case "no-equals":
+		text = render(avs[:3], drawRender(rt, 3, "r")) + ",CN"
+	}
+	return op, "x509.subject:" + text
+}
+
 // TestC04_InvalidIdentity: an identity that cannot be interpreted never yields a usable
 // verifier (fails closed at construction).
 func TestC04_InvalidIdentity(t *testing.T) {
 	rec := stats.New(t, "C04", rule)
 	rp.Check(t, 3000, 300000, func(rt *rapid.T) {
-		avs := []pki.AV{{T: "C", V: drawValue(rt, "c", false)}, {T: "ST", V: drawValue(rt, "st", false)}, {T: "O", V: drawValue(rt, "o", false)}, {T: "CN", V: drawValue(rt, "cn", false)}}
-		op := rp.Pick(rt, "op", "missing-C", "missing-ST", "missing-O", "duplicate", "multivalued", "eqhash", "empty-value", "no-equals")
-		text := ""
-		switch op {
-		case "missing-C":
-			text = render(avs[1:], drawRender(rt, 3, "r"))
-		case "missing-ST":
-			text = render([]pki.AV{avs[0], avs[2], avs[3]}, drawRender(rt, 3, "r"))
-		case "missing-O":
-			text = render([]pki.AV{avs[0], avs[1], avs[3]}, drawRender(rt, 3, "r"))
-		case "duplicate":
-			text = render(append(avs, pki.AV{T: rp.Pick(rt, "dup", "C", "ST", "O", "CN"), V: "zz"}), drawRender(rt, 5, "r"))
-		case "multivalued":
-			text = render(avs[:3], drawRender(rt, 3, "r")) + "+CN=joined"
-		case "eqhash":
-			text = render(avs[:3], drawRender(rt, 3, "r")) + ",CN=#0c0161"
-		case "empty-value":
-			text = ""
-		case "no-equals":
-			text = render(avs[:3], drawRender(rt, 3, "r")) + ",CN"
-		}
-		id := "x509.subject:" + text
+		op, id := invalidIdentity(rt)
 		rec.Case([]string{"class=identity-uninterpretable", "invalid-identity=" + op}, true, stats.Fingerprint("invalid", id), func() any { return id })
 		opts := kit.Options()
 		opts.OCITrustPolicy = kit.OCIDoc("p", kit.Level{Base: "strict"}.SV(""), []string{"ca:x"}, []string{id})
 		if _, err := verifier.NewVerifierWithOptions(mocks.NewTrustStore(), opts); err == nil {
 			rec.Failf(rt, "C04:uninterpretable-identity-accepted:"+op, id, "a verifier was constructed with the uninterpretable identity %q", id)
 		}
+	})
+}
+
+// LateCase is the replay format of TestC04_LateEdit.
+type LateCase struct {
+	Identities []string `json:"identities"` // the list the statement carries at verification time
+	Invalid    int      `json:"invalid"`    // how many of them cannot be interpreted
+	Matching   int      `json:"matching"`   // how many match the leaf (C=US,ST=WA,O=late org,CN=late leaf)
+	Format     string   `json:"format"`
+}
+
+// TestC04_LateEdit: the verifier keeps the caller's document, so an identity list can reach the
+// identity check without having passed the construction-time validation (the document is edited
+// after the verifier was built - the repository's own tests do that). Whatever the route, a list
+// with an identity that cannot be interpreted must not be accepted, and neither must a list
+// without a matching identity. Oracle is one-sided: only an ACCEPTANCE is judged (a library that
+// copied the document at construction would keep refusing on the placeholder list, which is fine).
+func TestC04_LateEdit(t *testing.T) {
+	rec := stats.New(t, "C04", rule)
+	setup()
+	leafAVs := [][]pki.AV{{{T: "C", V: "US"}}, {{T: "ST", V: "WA"}}, {{T: "O", V: "late org"}}, {{T: "CN", V: "late leaf"}}}
+	leaf := pki.Mint(pki.Spec{RawSubject: pki.RDNs(leafAVs), NotBefore: caChain.Certs[1].Cert.NotBefore, NotAfter: caChain.Certs[1].Cert.NotAfter, EKU: leafEKU}, caChain.Certs[1])
+	desc := kit.Artifact("c04-late")
+	envs := map[string][]byte{}
+	for _, f := range envb.Formats {
+		envs[f] = envb.Build(envb.Spec{Format: f, Payload: envb.PayloadFor(desc.MediaType, desc.Digest.String(), desc.Size, nil), ContentType: envb.PayloadType,
+			Scheme: envb.SchemeX509, SigningTime: leaf.Cert.NotBefore.Add(23 * 3600 * 1e9), Chain: append(x509s(leaf), caChain.X509()[1:]...), Key: leaf.Key})
+	}
+	judge := func(ft stats.Failer, c LateCase) {
+		opts := kit.Options()
+		doc := kit.OCIDoc("p", kit.Level{Base: "strict"}.SV(""), []string{"ca:x"}, []string{"x509.subject:C=ZZ,ST=none,O=placeholder"})
+		opts.OCITrustPolicy = doc
+		v, err := verifier.NewVerifierWithOptions(mocks.NewTrustStore().Put("ca", "x", caChain.Root().Cert), opts)
+		if err != nil {
+			ft.Fatalf("harness: %v", err)
+		}
+		doc.TrustPolicies[0].TrustedIdentities = append([]string{}, c.Identities...)
+		out, verr := v.Verify(context.Background(), desc, envs[c.Format], notation.VerifierVerifyOptions{ArtifactReference: kit.Reference(desc), SignatureMediaType: c.Format})
+		accepted := verr == nil
+		if out != nil {
+			for _, r := range out.VerificationResults {
+				if r.Type == "authenticity" && r.Error == nil {
+					accepted = true
+				}
+			}
+		}
+		switch {
+		case accepted && c.Invalid > 0:
+			rec.Failf(ft, "C04:late-edit:uninterpretable-identity-skipped", c, "identity list %q contains an identity that cannot be interpreted, yet authenticity passed", c.Identities)
+		case accepted && c.Matching == 0:
+			rec.Failf(ft, "C04:late-edit:accepted-without-match", c, "no identity of %q matches the leaf, yet authenticity passed", c.Identities)
+		case !accepted && c.Invalid == 0 && c.Matching > 0:
+			rec.Class("late-edit-not-observed-or-refused", 1)
+		}
+	}
+	var rc LateCase
+	if rp.ReplayCase(&rc) {
+		judge(t, rc)
+		return
+	}
+	rp.Check(t, 2000, 200000, func(rt *rapid.T) {
+		c := LateCase{Format: rp.Pick(rt, "format", envb.MTJWS, envb.MTCOSE)}
+		var ops []string
+		n := rapid.IntRange(1, 4).Draw(rt, "n")
+		for i := 0; i < n; i++ {
+			switch rp.Pick(rt, "kind", "match", "match", "subset", "decoy", "invalid", "invalid", "unknown-prefix") {
+			case "match":
+				avs := []pki.AV{{T: "C", V: "US"}, {T: "ST", V: "WA"}, {T: "O", V: "late org"}, {T: "CN", V: "late leaf"}}
+				c.Identities = append(c.Identities, "x509.subject:"+render(avs, drawRender(rt, 4, "m")))
+				c.Matching++
+			case "subset":
+				avs := []pki.AV{{T: "C", V: "US"}, {T: "ST", V: "WA"}, {T: "O", V: "late org"}}
+				c.Identities = append(c.Identities, "x509.subject:"+render(avs, drawRender(rt, 3, "s")))
+				c.Matching++
+			case "decoy":
+				avs := []pki.AV{{T: "C", V: "US"}, {T: "ST", V: "WA"}, {T: "O", V: fmt.Sprintf("late org %d", i)}}
+				c.Identities = append(c.Identities, "x509.subject:"+render(avs, drawRender(rt, 3, "d")))
+			case "invalid":
+				op, id := invalidIdentity(rt)
+				ops = append(ops, op)
+				c.Identities = append(c.Identities, id)
+				c.Invalid++
+			case "unknown-prefix":
+				c.Identities = append(c.Identities, "custom.scheme:whatever")
+			}
+		}
+		cl := []string{"policy-edited-after-construction", fmt.Sprintf("late-invalid=%d", c.Invalid), fmt.Sprintf("late-matching=%d", c.Matching)}
+		if c.Invalid > 0 && c.Matching > 0 {
+			cl = append(cl, "late-mixed-invalid-and-matching")
+		}
+		for _, op := range ops {
+			cl = append(cl, "late-invalid="+op)
+		}
+		rec.Case(cl, true, stats.Fingerprint("late", strings.Join(c.Identities, "|"), c.Format), func() any { return c })
+		judge(rt, c)
 	})
 }
